@@ -315,8 +315,31 @@ pub struct BundleConfiguration {
     require_mode: BundleRequireMode,
     #[serde(skip_serializing_if = "Option::is_none")]
     modules_identifier: Option<String>,
-    #[serde(default, skip_serializing_if = "HashSet::is_empty")]
+    #[serde(
+        default,
+        skip_serializing_if = "HashSet::is_empty",
+        deserialize_with = "deserialize_excludes"
+    )]
     excludes: HashSet<String>,
+}
+
+/// Reads the `excludes` patterns and refuses the ones that are not valid globs (they would
+/// otherwise be dropped when the bundler is built, and the modules they name bundled).
+fn deserialize_excludes<'de, D: serde::Deserializer<'de>>(
+    deserializer: D,
+) -> Result<HashSet<String>, D::Error> {
+    let excludes = HashSet::<String>::deserialize(deserializer)?;
+
+    for pattern in excludes.iter() {
+        wax::Glob::new(pattern).map_err(|err| {
+            serde::de::Error::custom(format!(
+                "invalid pattern `{}` in `excludes`: {}",
+                pattern, err
+            ))
+        })?;
+    }
+
+    Ok(excludes)
 }
 
 impl BundleConfiguration {
